@@ -2,7 +2,7 @@ package warcread
 
 // Run with: cd /verif/harness/lib/e2e/warcread && GO111MODULE=off go test .
 // testdata/plain.warc.gz and plain.origin.json were produced by a plain child
-// run of the real pipeline (harness c02b with E2E_TESTDATA=<dir>).
+// run of the real pipeline (python3 /verif/engine/driver.py run c02b quick --emit-testdata=/verif/harness/lib/e2e/warcread/testdata).
 
 import (
 	"bytes"
